@@ -161,6 +161,75 @@ func extractC21(repo string) ([]fact, error) {
 		{"c21StmtUnknown", "Nat", strconv.Itoa(kinds["StmtUnknown"]), ""},
 		{"c21StmtComment", "Nat", strconv.Itoa(kinds["StmtComment"]), ""},
 	}
+	if _, ok := kinds["StmtWith"]; !ok {
+		return nil, fmt.Errorf("C21: no constant StmtWith")
+	}
+	facts = append(facts, fact{"c21StmtWith", "Nat", strconv.Itoa(kinds["StmtWith"]), ""})
+
+	// 2b. PreviewMainStatement: for { switch Preview(sql) { StmtComment: strip the opener; StmtWith: follow
+	// withMainStatement, StmtWith when it cannot; default: return the type } }
+	pm := c21FindFunc(af, "PreviewMainStatement")
+	if pm == nil || len(pm.Body.List) != 1 {
+		return nil, fmt.Errorf("C21: parser.PreviewMainStatement not found or of unexpected shape")
+	}
+	loop, ok := pm.Body.List[0].(*ast.ForStmt)
+	if !ok || loop.Cond != nil || loop.Init != nil || loop.Post != nil || len(loop.Body.List) != 2 {
+		return nil, fmt.Errorf("C21: PreviewMainStatement is not a bare for loop of two statements")
+	}
+	if a, ok := loop.Body.List[0].(*ast.AssignStmt); !ok || c21ExprString(a.Lhs[0]) != "stmtType" || c21ExprString(a.Rhs[0]) != "Preview(sql)" {
+		return nil, fmt.Errorf("C21: PreviewMainStatement does not start with stmtType := Preview(sql)")
+	}
+	msw, ok := loop.Body.List[1].(*ast.SwitchStmt)
+	if !ok || c21ExprString(msw.Tag) != "stmtType" || len(msw.Body.List) != 3 {
+		return nil, fmt.Errorf("C21: PreviewMainStatement does not switch on stmtType with three cases")
+	}
+	var mcases []string
+	for _, c := range msw.Body.List {
+		cc := c.(*ast.CaseClause)
+		if cc.List == nil {
+			if len(cc.Body) != 1 {
+				return nil, fmt.Errorf("C21: default case of PreviewMainStatement")
+			}
+			if r, ok := cc.Body[0].(*ast.ReturnStmt); !ok || len(r.Results) != 1 || c21ExprString(r.Results[0]) != "stmtType" {
+				return nil, fmt.Errorf("C21: default case of PreviewMainStatement does not return stmtType")
+			}
+			mcases = append(mcases, "default")
+			continue
+		}
+		if len(cc.List) != 1 {
+			return nil, fmt.Errorf("C21: case list of PreviewMainStatement")
+		}
+		mcases = append(mcases, c21ExprString(cc.List[0]))
+		switch c21ExprString(cc.List[0]) {
+		case "StmtComment":
+			if a, ok := cc.Body[0].(*ast.AssignStmt); len(cc.Body) != 1 || !ok || c21ExprString(a.Lhs[0]) != "sql" ||
+				c21ExprString(a.Rhs[0]) != "specCodeStart.ReplaceAllString(StripLeadingComments(sql),\"\")" {
+				return nil, fmt.Errorf("C21: StmtComment case of PreviewMainStatement")
+			}
+		case "StmtWith":
+			if len(cc.Body) != 4 {
+				return nil, fmt.Errorf("C21: StmtWith case of PreviewMainStatement has %d statements", len(cc.Body))
+			}
+			a, ok := cc.Body[1].(*ast.AssignStmt)
+			if !ok || len(a.Lhs) != 2 || c21ExprString(a.Rhs[0]) != "withMainStatement(strings.TrimLeftFunc(StripLeadingComments(sql),isNotLetter))" {
+				return nil, fmt.Errorf("C21: StmtWith case of PreviewMainStatement does not call withMainStatement on the text from its first letter")
+			}
+			ifs, ok := cc.Body[2].(*ast.IfStmt)
+			if !ok || c21ExprString(ifs.Cond) != "!ok" || len(ifs.Body.List) != 1 {
+				return nil, fmt.Errorf("C21: StmtWith case of PreviewMainStatement: no `if !ok`")
+			}
+			if r, ok := ifs.Body.List[0].(*ast.ReturnStmt); !ok || c21ExprString(r.Results[0]) != "StmtWith" {
+				return nil, fmt.Errorf("C21: StmtWith case of PreviewMainStatement does not answer StmtWith when no statement is found")
+			}
+			if a2, ok := cc.Body[3].(*ast.AssignStmt); !ok || c21ExprString(a2.Lhs[0]) != "sql" || c21ExprString(a2.Rhs[0]) != "main" {
+				return nil, fmt.Errorf("C21: StmtWith case of PreviewMainStatement does not go on with the main statement")
+			}
+		}
+	}
+	if strings.Join(mcases, ",") != "StmtComment,StmtWith,default" {
+		return nil, fmt.Errorf("C21: PreviewMainStatement has cases [%s]", strings.Join(mcases, ","))
+	}
+	facts = append(facts, fact{"c21MainShape", "Bool", "true", "PreviewMainStatement = for { switch Preview(sql) { StmtComment: drop the opener; StmtWith: withMainStatement from the first letter, StmtWith when not found; default: return } }"})
 
 	// 3. isSQLNotAllowedByUser
 	ef, err := parser.ParseFile(fset, filepath.Join(repo, "proxy", "server", "executor.go"), nil, 0)
@@ -253,18 +322,88 @@ func extractC21(repo string) ([]fact, error) {
 		}
 	}
 	wantShape := []string{"stmtType:=parser.Preview(sql)", "reqCtx.SetStmtType(stmtType)", "checkedType:=stmtType",
-		"if stmtType==parser.StmtComment", "if isSQLNotAllowedByUser(se,checkedType)"}
+		"if stmtType==parser.StmtComment||stmtType==parser.StmtWith", "if isSQLNotAllowedByUser(se,checkedType)"}
 	if strings.Join(shape, " ; ") != strings.Join(wantShape, " ; ") {
 		return nil, fmt.Errorf("C21: checkSQLAllowed has shape [%s], expected [%s]", strings.Join(shape, " ; "), strings.Join(wantShape, " ; "))
 	}
 	inner := cs.Body.List[3].(*ast.IfStmt)
 	if len(inner.Body.List) != 1 {
-		return nil, fmt.Errorf("C21: unexpected body of the StmtComment branch of checkSQLAllowed")
+		return nil, fmt.Errorf("C21: unexpected body of the StmtComment/StmtWith branch of checkSQLAllowed")
 	}
-	if a, ok := inner.Body.List[0].(*ast.AssignStmt); !ok || c21ExprString(a.Lhs[0]) != "checkedType" || c21ExprString(a.Rhs[0]) != "parser.PreviewSpecialComment(sql)" {
-		return nil, fmt.Errorf("C21: the StmtComment branch of checkSQLAllowed does not preview the special comment")
+	if a, ok := inner.Body.List[0].(*ast.AssignStmt); !ok || c21ExprString(a.Lhs[0]) != "checkedType" || c21ExprString(a.Rhs[0]) != "parser.PreviewMainStatement(sql)" {
+		return nil, fmt.Errorf("C21: the StmtComment/StmtWith branch of checkSQLAllowed does not preview the main statement")
 	}
-	facts = append(facts, fact{"c21CheckShape", "Bool", "true", "checkSQLAllowed = Preview; (StmtComment → PreviewSpecialComment); isSQLNotAllowedByUser → error"})
+	facts = append(facts, fact{"c21CheckShape", "Bool", "true", "checkSQLAllowed = Preview; (StmtComment or StmtWith → PreviewMainStatement); isSQLNotAllowedByUser → error"})
+
+	// getPlan: the tree the parser returns goes through isSQLNotAllowedByUser before the plan is built from it
+	gp := c21FindFunc(hf, "getPlan")
+	if gp == nil {
+		return nil, fmt.Errorf("C21: getPlan not found")
+	}
+	iParse, iCheck, iBuild := -1, -1, -1
+	for i, st := range gp.Body.List {
+		switch x := st.(type) {
+		case *ast.AssignStmt:
+			if len(x.Rhs) == 1 {
+				switch {
+				case c21ExprString(x.Rhs[0]) == "se.Parse(sql)" && len(x.Lhs) == 2 && c21ExprString(x.Lhs[0]) == "n":
+					iParse = i
+				case strings.HasPrefix(c21ExprString(x.Rhs[0]), "plan.BuildPlan(n,"):
+					iBuild = i
+				}
+			}
+		case *ast.IfStmt:
+			if c21ExprString(x.Cond) == "isSQLNotAllowedByUser(se,stmtTypeOfNode(n))" && len(x.Body.List) == 1 {
+				if r, ok := x.Body.List[0].(*ast.ReturnStmt); ok && len(r.Results) == 2 && c21ExprString(r.Results[0]) == "nil" &&
+					strings.HasPrefix(c21ExprString(r.Results[1]), "fmt.Errorf(") {
+					iCheck = i
+				}
+			}
+		}
+	}
+	if !(0 <= iParse && iParse < iCheck && iCheck < iBuild) {
+		return nil, fmt.Errorf("C21: getPlan does not check the parsed tree between se.Parse and plan.BuildPlan (positions %d %d %d)", iParse, iCheck, iBuild)
+	}
+	facts = append(facts, fact{"c21PlanChecksTree", "Bool", "true", "getPlan: n := se.Parse(sql); ...; if isSQLNotAllowedByUser(se, stmtTypeOfNode(n)) { return nil, error }; ...; plan.BuildPlan(n, ...)"})
+	// stmtTypeOfNode: node type -> kind
+	tn := c21FindFunc(ef, "stmtTypeOfNode")
+	if tn == nil || len(tn.Body.List) != 2 {
+		return nil, fmt.Errorf("C21: stmtTypeOfNode not found or of unexpected shape")
+	}
+	tsw, ok := tn.Body.List[0].(*ast.TypeSwitchStmt)
+	if !ok {
+		return nil, fmt.Errorf("C21: stmtTypeOfNode does not start with a type switch")
+	}
+	if r, ok := tn.Body.List[1].(*ast.ReturnStmt); !ok || c21ExprString(r.Results[0]) != "parser.StmtUnknown" {
+		return nil, fmt.Errorf("C21: stmtTypeOfNode does not end with return parser.StmtUnknown")
+	}
+	var nodeKinds []string
+	for _, c := range tsw.Body.List {
+		cc := c.(*ast.CaseClause)
+		if cc.List == nil {
+			return nil, fmt.Errorf("C21: default clause in stmtTypeOfNode")
+		}
+		var rets []string
+		ast.Inspect(cc, func(n ast.Node) bool {
+			if r, ok := n.(*ast.ReturnStmt); ok && len(r.Results) == 1 {
+				rets = append(rets, strings.TrimPrefix(c21ExprString(r.Results[0]), "parser."))
+			}
+			return true
+		})
+		if len(rets) == 0 {
+			return nil, fmt.Errorf("C21: case without return in stmtTypeOfNode")
+		}
+		for _, e := range cc.List {
+			for _, rname := range rets {
+				k, ok := kinds[rname]
+				if !ok {
+					return nil, fmt.Errorf("C21: unknown kind %s in stmtTypeOfNode", rname)
+				}
+				nodeKinds = append(nodeKinds, fmt.Sprintf("(%q, %d)", strings.TrimPrefix(c21ExprString(e), "*"), k))
+			}
+		}
+	}
+	facts = append(facts, fact{"c21NodeKinds", "List (String × Nat)", "[" + strings.Join(nodeKinds, ", ") + "]", "stmtTypeOfNode: node type of the parsed statement, Preview kind it is checked as"})
 
 	// every call of doQuery / handleQuery in the package, by enclosing function
 	calls := map[string][]string{}
